@@ -34,4 +34,8 @@ def worker_half(ctx):
 def run(ctx):
     report(ctx, "C02")
     worker_half(ctx)
+    # the controller-level engine assumes that a command reaches its executor exactly once; that is what the Listener's memory of
+    # seen Syns provides: judged here on the real Listener as well (several senders, long histories)
+    from .c06 import senders_part
+    senders_part(ctx)
     ctx.coverage["traces_validated_against_impl"] += ctx.coverage["worker_message_orders"]
